@@ -38,7 +38,10 @@ RUN_ACTIONS = ["MCEvalConst", "MCReject", "MCDone", "MCCall", "MCGet"]
 BUILD_ACTIONS = ["MCAddEdge", "MCInjectEdge", "MCInjectCtx", "MCStart"]
 
 # forms of a use site of an i32 value (constant, function result, integer context variable)
-INT_FORMS = ["paren", "block", "letblock", "ifelse", "cond", "match", "hostarg", "neg", "method", "methodarg", "fstring"]
+INT_FORMS = ["paren", "block", "letblock", "ifelse", "cond", "match", "hostarg", "neg", "method", "methodarg", "fstring",
+             # two reads of which the textually first lies on a path that is not executed (a branch not taken, a loop
+             # body that runs zero times, a match arm not selected): the second read must still see the value
+             "skipthen", "skiploop", "skiparm"]
 PATH_ONLY_FORMS = ("method", "cond")     # need a path (constant / context variable), not a call
 # forms of a use site of the String context variable
 STR_FORMS = ["s_hostarg", "s_method", "s_method2", "s_len", "s_cond", "s_methodarg", "s_fstring", "s_letblock", "s_eq"]
@@ -245,7 +248,7 @@ def make_script(g, rng, layout_idx=None, order=None):
         """one use site of the i32 expression e (a constant path, a function call, a context variable)"""
         forms = INT_FORMS if is_path else [f for f in INT_FORMS if f not in PATH_ONLY_FORMS]
         wrap = rng.choice(forms + ["direct"])
-        if local_import and wrap not in ("block", "letblock", "cond"):
+        if local_import and wrap not in ("block", "letblock", "cond", "skiploop"):
             wrap = "block"
         styles_used.add("use:%s:%s" % (role, wrap))
         imp = (local_import + " ") if local_import else ""
@@ -259,6 +262,12 @@ def make_script(g, rng, layout_idx=None, order=None):
             return "({ %slet %s = %s; %s })" % (imp, tmp, e, tmp)
         if wrap == "ifelse":
             return "(if 1 == 1 { %s } else { 0 })" % e
+        if wrap == "skipthen":
+            return "(if 1 == 2 { %s } else { %s })" % (e, e)
+        if wrap == "skiploop":
+            return "({ %slet %s = 0; while 1 == 2 { %s = %s; } (%s + %s) })" % (imp, tmp, tmp, e, e, tmp)
+        if wrap == "skiparm":
+            return "(match Option.Some(1) { None => %s, Some(%s) => %s })" % (e, tmp, e)
         if wrap == "cond":
             # the only use site is a loop condition; the loop counts up to the value (0 <= value < Modulus)
             return "({ %slet %s = 0; while %s < %s { %s = %s + 1; } %s })" % (imp, tmp, tmp, e, tmp, tmp, tmp)
